@@ -265,6 +265,12 @@ def _handcoded_sym(vk, cfg):
         # AD contract of real_to_dual(eta, W): dpsi = eta dW  =>  P = F . 2 eta dW/dC = eta D(W(F^T F), F)
         vk.ensures_eq("stress/P_hand(F)==eta_ad.D(W_ad(F^T.F),F)", P[:, :, 0, 0], eta * vk.D(Wad, Fq))
         vk.ensures_eq("history/Wmax_hand==Wmax_ad", np.asarray(svn)[:, 0, 0], np.asarray(hist).ravel())
+        # elasticity of the AD version = D of its stress at fixed stored state (AD contract): the hand-coded
+        # tangent must agree with it
+        vk.real(fem.OgdenRoxburgh.hessian)
+        with M.np_overrides(maximum=M.np_maximum):
+            A = um.hessian([F.copy(), sv.copy()])[0]
+        vk.ensures_eq("elasticity/A_hand(F)==D(eta_ad.D(W_ad(F^T.F),F),F)", A[..., 0, 0], vk.D(eta * vk.D(Wad, Fq), Fq))
         vk.canary("P_hand==D(W_ad)-without-softening" if path == "unloading" else "P_hand==0", P[:, :, 0, 0], vk.D(Wad, Fq) if path == "unloading" else 0 * P[:, :, 0, 0])
 
 
@@ -299,6 +305,7 @@ def _handcoded_native(vk, cfg):
         P, svn = um.gradient([F.copy(), sv.copy()])
         vk.ensures_eq("stress/P_hand(F)==eta_ad.D(W_ad(F^T.F),F)", P[:, :, 0, 0], 0)
         vk.ensures_eq("history/Wmax_hand==Wmax_ad", np.asarray(svn)[:, 0, 0], 0)
+        vk.ensures_eq("elasticity/A_hand(F)==D(eta_ad.D(W_ad(F^T.F),F),F)", um.hessian([F.copy(), sv.copy()])[0][..., 0, 0], 0)
         ad = mt.Hyperelastic(TT.ogden_roxburgh, nstatevars=1, material=TT.neo_hooke, r=r, m=m, beta=beta, mu=mu)
         Pad, svad = ad.gradient([F.copy(), sv.copy()])
         if np.abs(np.asarray(Pad) - P).max() > 1e-9 or np.abs(np.asarray(svad) - svn).max() > 1e-9:
